@@ -18,6 +18,13 @@ fn main_check(ctx: &Ctx) -> Outcome {
     let k_of = move |len: usize| if quick { if len <= 4 { 3 } else { 2 } } else if len <= 6 { 3 } else { 2 };
     let (findings, runs, deviating, max_points) = sweep(Mode::Strip, maxlen, &k_of);
     out.findings.extend(findings);
+    // large inputs (around the 4/8/16/64 KiB marks): no deviation for all sizes, one deviation for the 8 KiB + 1 size
+    let sizes: Vec<usize> = if quick { vec![1023, 8191, 8192, 8193, 20000] } else { vec![1023, 4095, 4096, 4097, 8191, 8192, 8193, 16384, 16385, 20000, 65535, 65537, 131073] };
+    let k_large = move |n: usize| if n == 1023 || (!quick && n == 8193) { 1 } else { 0 };
+    let (lf, lruns, ldev) = large_sweep(Mode::Strip, &sizes, &k_large);
+    out.findings.extend(lf);
+    out.push_part(json!({"part":"large inputs","sizes":sizes,"unit":LARGE_UNIT,"shifts":LARGE_UNIT.len(),"executions":lruns,"executions_with_deviation":ldev,"deviation_bound":"1 for the 1023-byte size (and 8193 bytes in the thorough tier), 0 otherwise"}));
+    let (runs, deviating) = (runs + lruns, deviating + ldev);
     out.set("evaluations", json!(runs));
     out.set("distinct_nontrivial", json!(deviating));
     out.set("rule", json!("evaluations = executions (input x driver x script), each distinct by construction; distinct_nontrivial = executions whose script contains at least one deviation (short write or injected error); a script is the list of answers of the inner writer, enumerated CHESS-style with a bound on the number of non-default answers"));
@@ -35,6 +42,9 @@ fn main_check(ctx: &Ctx) -> Outcome {
 }
 
 fn replay(v: &serde_json::Value) -> Result<(), String> {
+    if v["kind"] == "large" {
+        return replay_large(v);
+    }
     replay_case(v)
 }
 
